@@ -217,7 +217,7 @@ class AHarness:
     """one cbmc harness: entry function `entry` in harness TU `src` (C++ against the real headers)"""
     def __init__(s, name, src, entry, unwind=None, unwindset=None, defs=(), noinline=False, inline_all=False, redirect=None, allow_ext=(), indirect=None,
                  timeout=600, mem_gb=24, backend=None, flags=None, extra=(), what='', bound='', pre_inc=(), cflags=(), tiers=('quick', 'thorough'),
-                 expect_cex=None, std='c++11', native_replay=True, extra_c=(), threads=(), setup=None, post=None, nsteps=0):
+                 expect_cex=None, std='c++11', native_replay=True, extra_c=(), threads=(), setup=None, post=None, nsteps=0, witness=True):
         s.__dict__.update(locals()); del s.__dict__['s']
 
 _ll_cache = {}
@@ -300,10 +300,13 @@ def run_engine_a(pid, tier, harnesses, ev, work, known_match=None, workers=None,
     """Runs all harnesses of the tier in parallel. Returns list of violation replay paths; raises Broken."""
     hs = [h for h in harnesses if tier in h.tiers]
     workers = workers or min(len(hs), max(1, (os.cpu_count() or 4) // 2)) or 1
-    # lowering is cached and not thread-safe: do it up front
-    for h in hs: lower(work, h)
+    # lowering (clang) up front, distinct configurations in parallel
+    seen_k = {}; 
+    for h in hs: seen_k.setdefault((h.src, tuple(h.defs), h.noinline, h.inline_all, tuple(h.pre_inc), tuple(h.cflags), h.std), h)
+    with ThreadPoolExecutor(min(12, max(1, len(seen_k)))) as ex0:
+        errs = list(ex0.map(lambda hh: (lower(work, hh), None)[1] if True else None, seen_k.values()))
     def one(h):
-        try: return h, run_aharness(work, h, ev), None
+        try: return h, run_aharness(work, h, ev, witness=h.witness), None
         except Broken as b: return h, None, b
     with ThreadPoolExecutor(workers) as ex: results = list(ex.map(one, hs))
     violations = []; broken = []
@@ -317,13 +320,13 @@ def run_engine_a(pid, tier, harnesses, ev, work, known_match=None, workers=None,
         ev.bounds[h.name] = {'unwind': h.unwind, 'unwindset': h.unwindset, 'stated': h.bound}
         base = {'cbmc_properties': res.nprops, 'sat_variables': res.sat_vars, 'sat_clauses': res.sat_clauses, 'ssa_steps': res.steps, 'vccs': res.vccs, 'vccs_after_simplification': res.vccs_remaining, 'wall_s': round(res.time, 1), 'rss_mb': res.rss_mb}
         if res.status == 'success':
-            wok = wres is not None and wres.status == 'failed'
-            ev.witnesses[h.name] = 'reachable' if wok else ('UNREACHABLE' if wres is not None and wres.status == 'success' else 'inconclusive:%s' % (wres.status if wres else None))
+            wok = (wres is not None and wres.status == 'failed') or not h.witness
+            ev.witnesses[h.name] = ('reachable' if h.witness else 'not run (same harness code as a sibling configuration whose witness ran)') if wok else ('UNREACHABLE' if wres is not None and wres.status == 'success' else 'inconclusive:%s' % (wres.status if wres else None))
             if not wok:
                 ev.add(h.name, h.what, h.bound, 'inconclusive', res.solver_s, extra=base)
                 broken.append('%s: witness twin not reachable (%s) - harness vacuous or over budget' % (h.name, ev.witnesses[h.name]))
             else:
-                ev.add(h.name, h.what, h.bound, 'discharged', res.solver_s + wres.solver_s, nontrivial=max(res.vccs_remaining, 1), extra=base)
+                ev.add(h.name, h.what, h.bound, 'discharged', res.solver_s + (wres.solver_s if wres else 0), nontrivial=max(res.vccs_remaining, 1), extra=base)
         elif res.status == 'failed':
             unw, povf, other = classify_failures(res)
             if unw and not other:
